@@ -66,6 +66,19 @@ func (f FileSpec) descriptors(caseDir string) (*pluginpb.CodeGeneratorRequest, s
 		FileToGenerate: []string{caseDir + "/other.proto", caseDir + "/svc.proto"},
 		ProtoFile:      []*descriptorpb.FileDescriptorProto{wk, other, fd},
 	}
+	if f.TwoFiles {
+		// a second file of the same proto and Go package with one more service
+		fd2 := &descriptorpb.FileDescriptorProto{
+			Name: sp(caseDir + "/svc2.proto"), Package: sp(f.Package), Syntax: sp("proto3"),
+			Dependency: []string{caseDir + "/svc.proto"},
+			Options:    &descriptorpb.FileOptions{GoPackage: sp(goPkg)},
+			Service: []*descriptorpb.ServiceDescriptorProto{{Name: sp("SecondFileSvc"), Method: []*descriptorpb.MethodDescriptorProto{
+				{Name: sp("Ping"), InputType: sp("." + f.Package + ".In"), OutputType: sp("." + f.Package + ".Out"), ClientStreaming: bp(false), ServerStreaming: bp(false)},
+				{Name: sp("Watch"), InputType: sp("." + f.Package + ".In"), OutputType: sp("." + f.Package + ".Out"), ClientStreaming: bp(false), ServerStreaming: bp(true)}}}},
+		}
+		req.FileToGenerate = append(req.FileToGenerate, caseDir+"/svc2.proto")
+		req.ProtoFile = append(req.ProtoFile, fd2)
+	}
 	return req, pkgName
 }
 
@@ -211,9 +224,8 @@ func generate(t *toolchain, f FileSpec) (out genOutcome) {
 	if f.Protolib == "gogo" {
 		// protoc-gen-gogo generates one Go package per invocation
 		runs = nil
-		for _, name := range req.FileToGenerate {
-			runs = append(runs, plugRun{msgPlugin, []string{name}})
-		}
+		runs = append(runs, plugRun{msgPlugin, req.FileToGenerate[:1]}) // the imported package
+		runs = append(runs, plugRun{msgPlugin, req.FileToGenerate[1:]}) // the service package (one or two files)
 		runs = append(runs, plugRun{t.drpc, req.FileToGenerate})
 	}
 	for _, pr := range runs {
